@@ -35,7 +35,7 @@ def _one(prefix, n, snaps=2, faults=1, imm=0, env=1, tier="quick", timeout=600):
     uw = {"memcpy.0": 10, "memcmp.0": 2}
     return Obl(name, "dbimpl/compact.c", real=REAL, include_real=INC_REAL, kit=KIT, defs=defs,
                unwind=max(n, 9) + 2, unwindset=uw, restrict_fp=FP,
-               replace_calls=["ldb_compact_memtable:vp_compact_memtable_stub"],
+               remove_bodies=["ldb_compact_memtable"],
                tier=tier, timeout=timeout, functions=FUNCS,
                desc="TODO", bounds="TODO")
 
